@@ -70,7 +70,8 @@ DrawSlice(shape, allowfixed) ==
           THEN DrawRange(shape[a], IF a = main \/ rk = 1 THEN {"seq"} ELSE {"seq", "seq", "all", "int"})
           ELSE DrawRange(shape[a], IF a = main THEN {"fseq"} ELSE {"fseq", "fseq", "all", "fix"})]
 \* a slice of `shape` whose extents equal `ext` (source for view = view)
-DrawSliceExt(shape, ext) ==
+\* (vk: "seq" dynamic or "fseq" compile-time ranges -- the same for every axis of the source)
+DrawSliceExtK(shape, ext, vk) ==
     [a \in 1..Len(shape) |->
         LET n == shape[a]  e == ext[a]
             smax == IF e = 1 THEN 3 ELSE (n - 1) \div (e - 1)
@@ -78,7 +79,8 @@ DrawSliceExt(shape, ext) ==
             sp == (e - 1) * s + 1
             f == Pick(0..(n - sp))
             enc == Pick({"pp", "pn"})
-        IN [k |-> "seq", f |-> f, l |-> IF enc = "pp" THEN f + sp ELSE f + sp - n - 1, s |-> s]]
+        IN [k |-> vk, f |-> f, l |-> IF enc = "pp" THEN f + sp ELSE f + sp - n - 1, s |-> s]]
+DrawSliceExt(shape, ext) == DrawSliceExtK(shape, ext, PickSeq(<<"seq", "seq", "fseq">>))
 
 SameRank(h) == {g \in Names : Len(ShapeOf(g)) = Len(ShapeOf(h))}
 Fits(shape, ext) == \A a \in 1..Len(shape) : ext[a] <= shape[a]
@@ -110,7 +112,7 @@ OverlapOK(c) == \/ c.na = 1
 ChooseWrite(sameBuf, t) ==
     LET h   == Pick(Names)
         shp == ShapeOf(h)
-        r   == DrawSlice(shp, ~sameBuf)
+        r   == DrawSlice(shp, TRUE)
         ext == SliceShape(shp, r)
         n   == Prod(ext)
     IN [e |-> "SliceWrite", buf |-> h, shape |-> shp, r |-> r, aop |-> PickSeq(Aops),
